@@ -410,3 +410,32 @@ func H_C04_Tail(name string, c1, c2, c3, dn, cut int) {
 	}
 	vrt.Reach("end")
 }
+
+// H_C03_Late: the pipeline is assembled BEFORE any producer exists (Compute is called
+// on channels nobody writes to yet) and only then are the producers started: assembling
+// a pipeline must not wait for input ("whatever the pacing of producers").
+func H_C03_Late(name string, c1, c2, c3, n int) {
+	ind := Lookup(name)
+	cfg := cfg3(c1, c2, c3)
+	inst := ind.Make(cfg)
+	declareOutcome(ind, cfg, n)
+	in := Inputs(ind, "", n)
+	chans := make([]chan float64, len(in))
+	ro := make([]<-chan float64, len(in))
+	for j := range in {
+		chans[j] = make(chan float64)
+		ro[j] = chans[j]
+	}
+	outs := ind.Run(inst, ro)
+	for j := range in {
+		go func(j int) {
+			defer close(chans[j])
+			for _, x := range in[j] {
+				chans[j] <- x
+			}
+		}(j)
+	}
+	res := Collect(outs...)
+	vrt.Assert("nout", len(res) == ind.NOut)
+	vrt.Reach("end")
+}
